@@ -6,7 +6,10 @@ cd /repo || exit 2
 if ! git diff --quiet; then echo "repo has uncommitted changes" >&2; exit 2; fi
 if ! git apply "$PATCH"; then echo "patch does not apply" >&2; exit 2; fi
 cd /verif
+# the run below is against a changed repository: its evidence file must not replace the real one
+SAVE=$(mktemp); [ -f "evidence/$PROP.json" ] && cp "evidence/$PROP.json" "$SAVE"
 VERIF_REPLAY_DIR=/tmp/verif-mutant-replays ./check "$PROP" "$TIER" 2>&1 | grep -E "VIOLATION|signature:|detail:|SUMMARY|KNOWN|harness" | cut -c1-300
 RC=${PIPESTATUS[0]}
+[ -s "$SAVE" ] && cp "$SAVE" "evidence/$PROP.json"; rm -f "$SAVE"
 git -C /repo checkout -- . 
 echo "exit=$RC"
